@@ -189,7 +189,6 @@ def check (op : OpObs) (pre post : Views) (seen : Array Bool) : List Fail :=
       if d.ch != s.ch then
         mk ["C15", "C03"] "append-mismatch-panics" s!"ch={d.ch}/{s.ch} outcome={outcome}" (outcome == "panic diffChannels") ++
         frameFails ["C15"] "append-mismatch-unchanged" pre post seen []
-      else if d.ch != 0 && (d.len % d.ch != 0 || s.len % d.ch != 0) && d.cap < d.len + s.len then []  -- outside C03/C12
       else
         let props := if d.ch == 0 || (d.cap == 0 && s.len == 0) then ["C20"] else ["C03", "C12"]
         let n := s.len
